@@ -22,6 +22,7 @@ import (
 	"verifharness/props/c13"
 	"verifharness/props/c14"
 	"verifharness/props/c15"
+	"verifharness/props/c16"
 	"verifharness/props/c17"
 	"verifharness/props/c18"
 	"verifharness/props/smoke"
@@ -42,6 +43,7 @@ var checks = map[string]func(*core.Ctx) int{
 	"C13":   c13.Run,
 	"C14":   c14.Run,
 	"C15":   c15.Run,
+	"C16":   c16.Run,
 	"C17":   c17.Run,
 	"C18":   c18.Run,
 	"smoke": smoke.Run,
